@@ -204,11 +204,13 @@ func (a *Agent) handleMembers(members []*Member) {
 	joined := NewMemberSet(members...).Except(a.members.Slice())
 	left := a.members.Except(members)
 
-	for _, member := range joined {
-		a.memberJoin(member)
-	}
+	// Leaves first: a member that joins with the same snapshot gets our actor
+	// topology, which must not list the actors of the members that are gone.
 	for _, member := range left {
 		a.memberLeave(member)
+	}
+	for _, member := range joined {
+		a.memberJoin(member)
 	}
 }
 
